@@ -93,3 +93,92 @@ bt!(c02_bt_s4b, S4B, 8);
 vc!(c02_vc_s2d1, S2D1L, 8);
 vc!(c02_vc_s3a, S3A, 8);
 vc!(c02_vc_s3c, S3C, 8);
+
+// ---------------------------------------------------------------------------------------------
+/// `leaf_ops_spliced(leaf, ops)`: the stream handed to build_trie when a terminal is rewritten is
+/// the sorted merge of the preserved leaf (unless the batch touches its key) and the batch's puts,
+/// for every sorted batch of `n` ops (puts and deletes in any mix, keys symbolic) and every leaf.
+pub fn splice_is_sorted_merge(n: usize, with_leaf: bool) {
+    use nomt_core::update::leaf_ops_spliced;
+    // value hashes carry one symbolic byte each (their content is irrelevant to splicing)
+    let mut ops_buf: [(KeyPath, Option<ValueHash>); 3] = [([0u8; 32], None); 3];
+    let mut i = 0;
+    while i < n {
+        let mut k = [0u8; 32];
+        k[0] = kani::any();
+        let mut vh = [0u8; 32];
+        vh[0] = kani::any();
+        let v: Option<ValueHash> = if kani::any() { Some(vh) } else { None };
+        if i > 0 {
+            kani::assume(ops_buf[i - 1].0[0] < k[0]);
+        }
+        ops_buf[i] = (k, v);
+        i += 1;
+    }
+    let ops = &ops_buf[..n];
+    let leaf = if with_leaf {
+        let mut k = [0u8; 32];
+        k[0] = kani::any();
+        let mut vh = [0u8; 32];
+        vh[0] = kani::any();
+        Some(LeafData {
+            key_path: k,
+            value_hash: vh,
+        })
+    } else {
+        None
+    };
+    let leaf_key = leaf.as_ref().map(|l| l.key_path[0]);
+    let leaf_val = leaf.as_ref().map(|l| l.value_hash);
+    let mut out = [([0u8; 32], [0u8; 32]); 5];
+    let mut m = 0;
+    for (k, v) in leaf_ops_spliced(leaf, ops) {
+        assert!(m < 5);
+        out[m] = (k, v);
+        m += 1;
+    }
+    // (1) strictly increasing
+    let mut j = 1;
+    while j < m {
+        assert!(out[j - 1].0[0] < out[j].0[0], "spliced stream not sorted");
+        j += 1;
+    }
+    // (2) exactly the model's content: for an arbitrary key byte q
+    let q: u8 = kani::any();
+    let mut want: Option<ValueHash> = None;
+    let mut in_ops = false;
+    let mut i = 0;
+    while i < n {
+        if ops[i].0[0] == q {
+            in_ops = true;
+            want = ops[i].1;
+        }
+        i += 1;
+    }
+    if !in_ops && leaf_key == Some(q) {
+        want = leaf_val;
+    }
+    let mut got: Option<ValueHash> = None;
+    let mut j = 0;
+    while j < m {
+        if out[j].0[0] == q {
+            got = Some(out[j].1);
+        }
+        j += 1;
+    }
+    assert!(got == want, "spliced stream differs from the model");
+    kani::cover!(m >= 2, "two or more entries");
+}
+
+#[kani::proof]
+pub fn c02_splice_n3_leaf() {
+    splice_is_sorted_merge(3, true)
+}
+#[kani::proof]
+pub fn c02_splice_n2_leaf() {
+    splice_is_sorted_merge(2, true)
+}
+#[kani::proof]
+pub fn c02_splice_n3_noleaf() {
+    splice_is_sorted_merge(3, false)
+}
